@@ -52,6 +52,10 @@ def main(argv):
     units = cfg["units"]
     ledger = load_json(os.path.join(HERE, "baseline", "obligations.json"), {})
     known = load_json(os.path.join(HERE, "known_findings.json"), {"findings": []})["findings"]
+    if tier == "thorough":
+        os.environ["PYVC_THOROUGH"] = "1"       # read by pyvc.verify in the forked workers
+        from pyvc import verify as _v
+        _v.THOROUGH = True
     results = run.run_units(units, use_cvc5=True)
     viol, undecided, crashed = [], [], []
     total = discharged = 0
@@ -91,6 +95,8 @@ def main(argv):
             if o["verdict"] == "discharged":
                 discharged += 1
                 by_backend[o["backend"]] = by_backend.get(o["backend"], 0) + 1
+                if o.get("cross"):
+                    by_backend["cross-checked by cvc5: " + o["cross"]] = by_backend.get("cross-checked by cvc5: " + o["cross"], 0) + 1
                 if len(samples) < 6:
                     samples.append(dict(id=o["id"], verdict=o["verdict"], backend=o["backend"], time_s=round(o["time"], 3)))
             else:
